@@ -49,6 +49,21 @@ def unit_values(d, size, kind=0):
     return (d + 1) * 0.5 + i * 0.25 + (i * i) * 0.5 * (kind % 2)
 
 
+_LABELS = {
+    'pos': {1: [['X']], 2: [['Y', 'X'], ['b', 'A'], ['X', 'Y']], 3: [['Y', 'Z', 'X'], ['Z', 'x', 'Y'], ['b', 'C', 'a']]},
+    'spec': {1: [['Bias']], 2: [['Cycle', 'Bias'], ['w', 'F'], ['Bias', 'Cycle']], 3: [['Freq', 'Cycle', 'DC'], ['t', 'V', 'f'], ['Step', 'Field', 'Phase']]},
+}
+
+
+def default_labels(side, sizes):
+    k = len(sizes)
+    opts = _LABELS[side].get(k)
+    if opts:
+        return list(opts[(sum(sizes) + k) % len(opts)])
+    base = ['%s%d' % ('P' if side == 'pos' else 'S', i) for i in range(k)]
+    return base[1:] + base[:1]
+
+
 class Layout:
     def __init__(self, pos_sizes, pos_order, spec_sizes, spec_order, dtype='f8', pos_labels=None, spec_labels=None,
                  vkind=1):
@@ -57,8 +72,10 @@ class Layout:
         self.spec_sizes = list(spec_sizes)
         self.spec_order = list(spec_order)
         self.dtype = dtype
-        self.pos_labels = pos_labels or ['P%d' % i for i in range(len(pos_sizes))]
-        self.spec_labels = spec_labels or ['S%d' % i for i in range(len(spec_sizes))]
+        # default names are NOT in alphabetical order in file order (a change that sorts names must not go unnoticed);
+        # chosen from the sizes only, so independent of the seed
+        self.pos_labels = pos_labels or default_labels('pos', pos_sizes)
+        self.spec_labels = spec_labels or default_labels('spec', spec_sizes)
         self.pos_units = ['pu%d' % i for i in range(len(pos_sizes))]
         self.spec_units = ['su%d' % i for i in range(len(spec_sizes))]
         self.vkind = vkind
